@@ -72,7 +72,10 @@ package scheduler
 //@ func (pc *PartitionContext) removeAllocation(release *si.AllocationRelease) (released []*objects.Allocation, confirmed *objects.Allocation)
 //@   props C06 C13 C03
 //@   sweep
-//@   mode nopanic=off
+//@   mode nopanic=on
+//@   holds pc != nil
+//@   at[queueset] call objects.Application.GetQueue#1 after: assume ret != nil
+//@   at[elems] call objects.Allocation.GetNodeID#1: assume arg0 != nil
 //@   at[confirmed] call objects.Allocation.GetAllocatedResource#1: assert arg0 != nil && arg0 == alloc.release
 //@   at[swapargs] call objects.Node.ReplaceAllocation#1: assert arg0 == node && arg1 == alloc.allocationKey && arg2 == confirmed && confirmed != nil
 //@   at[swapnode] call objects.Node.ReplaceAllocation#1: assert confirmed.nodeID == alloc.nodeID
@@ -89,7 +92,9 @@ package scheduler
 //@ func (pc *PartitionContext) UpdateAllocation(alloc *objects.Allocation) (requestCreated bool, allocCreated bool, err error)
 //@   props C12 C13 C03 C04
 //@   sweep
-//@   mode nopanic=off
+//@   mode nopanic=on
+//@   holds pc != nil && pc.stateMachine != nil
+//@   at[queueset] call objects.Application.GetQueue#1 after: assume ret != nil
 //@   at[validated] call objects.Application.AddAllocationAsk#1: assert arg1 == alloc && wfRes(alloc.allocatedResource) && node == nil
 //@   at[recoverqueue] call objects.Queue.IncAllocatedResource#1: assert arg0 == queue && arg1 == alloc.allocatedResource && wfRes(alloc.allocatedResource)
 //@   at[recovernode] call objects.Node.AddAllocation#1: assert arg0 == node && node != nil && arg1 == alloc
@@ -105,7 +110,52 @@ package scheduler
 //@ func (cc *ClusterContext) processAllocations(request *si.AllocationRequest)
 //@   props C13 C04
 //@   sweep
-//@   mode nopanic=off
+//@   mode nopanic=on
+//@   holds cc != nil && cc.rmEventHandler != nil && request != nil
+//@   at[wfSI] fieldaddr Allocation.PartitionName#1: assume base != nil
 //@   holds forall i int :: 0 <= i && i < len(request.Allocations) ==> request.Allocations[i] != nil
 //@   at[notdropped] call scheduler.PartitionContext.UpdateAllocation#1: assert arg1 != nil && arg0 == partition && partition != nil
 //@   at[rejectpartition] append rejectedAllocs#1: assert partition == nil && elem.AllocationKey == siAlloc.AllocationKey && elem.ApplicationID == siAlloc.ApplicationID
+
+// ---------------------------------------------------------------- C13: panic-freedom sweep of the SI entry points
+// zero functional annotation: every nil dereference, nil-map write, index, slice, division and type assertion in
+// these bodies is a generated obligation. Input class (the property's own): any scalar / string, any sub-message
+// pointer possibly nil, list elements and map values non-nil; the context objects themselves are set up.
+
+//@ func (pc *PartitionContext) handleForeignAllocation(allocationKey, applicationID, nodeID string, node *objects.Node, alloc *objects.Allocation) (requestCreated bool, allocCreated bool, err error)
+//@   props C13
+//@   sweep
+//@   holds pc != nil && alloc != nil
+
+//@ func (cc *ClusterContext) processAllocationReleases(releases []*si.AllocationRelease, rmID string)
+//@   props C13
+//@   sweep
+//@   holds cc != nil && cc.rmEventHandler != nil
+//@   at[wfSI] fieldaddr AllocationRelease.PartitionName#1: assume base != nil
+
+//@ func (cc *ClusterContext) processNodes(request *si.NodeRequest)
+//@   props C13
+//@   sweep
+//@   holds cc != nil && cc.rmEventHandler != nil && request != nil && (forall i int :: 0 <= i && i < len(request.Nodes) ==> request.Nodes[i] != nil)
+
+//@ func (cc *ClusterContext) handleRMUpdateApplicationEvent(event *rmevent.RMUpdateApplicationEvent)
+//@   props C13
+//@   sweep
+//@   holds cc != nil && cc.rmEventHandler != nil && event != nil && event.Request != nil
+//@   at[wfSI] fieldaddr AddApplicationRequest.PartitionName#1: assume base != nil
+//@   at[wfSI] fieldaddr RemoveApplicationRequest.PartitionName#1: assume base != nil
+
+//@ func (pc *PartitionContext) removeForeignAllocation(allocKey string)
+//@   props C13
+//@   sweep
+//@   holds pc != nil
+
+//@ func (cc *ClusterContext) handleRMUpdateAllocationEvent(event *rmevent.RMUpdateAllocationEvent)
+//@   props C13
+//@   sweep
+//@   holds cc != nil && event != nil && event.Request != nil
+
+//@ func (cc *ClusterContext) handleRMUpdateNodeEvent(event *rmevent.RMUpdateNodeEvent)
+//@   props C13
+//@   sweep
+//@   holds cc != nil && event != nil && event.Request != nil
